@@ -63,6 +63,8 @@ typedef struct simproc {
   /* thread mode */
   pthread_t th; int blocked; int finished;
   int (*mainfn)(void);
+  int wait_obj;                          /* pipe / inode the process is blocked on */
+  int (*start_pred)(struct simproc *);   /* thread mode: the program starts only once this is false */
 } simproc;
 
 typedef struct {
@@ -97,6 +99,7 @@ int sim_mkfile_ino(const char *fmt_with_ino_mod_and_ino, int split, const void *
 int sim_link_(const char *oldabs, const char *newabs);
 void sim_deliver_signal(simproc *p, int sig);
 extern int (*sim_idle_hook)(void);
+extern int sim_readdir_snapshot;
 extern void (*sim_sink_hook)(simproc *, int fd);   /* after a write to a sink descriptor */
 simproc *sim_proc(int idx, const char *name, long pid, uid_t uid, const char *cwd);
 int sim_fd_source(simproc *p, int fd, const void *data, size_t n, int chunk);   /* returns source id */
@@ -151,6 +154,7 @@ extern int (*sim_select_hook)(simproc *p, int nfds, fd_set *r, fd_set *w, struct
 /* scheduling (thread mode) */
 extern int sim_threads;              /* 1 = baton scheduling active */
 void sim_spawn(simproc *p, int (*mainfn)(void));
+void sim_wait(int (*pred)(simproc *), const char *what);   /* block the calling process while pred holds */
 void sim_run_all(void);              /* run until every process finished or blocked forever */
 extern int (*sim_pick)(int n, int *idx, const char **what);   /* choose among n runnable procs */
 extern const char *sim_pending_call[SIM_MAXPROC];
